@@ -96,6 +96,21 @@ def run(tier, replay=None):
     rng = random.Random(seed() * 16807 % (1 << 31) + 2)
     wd = workdir("c02")
     scns = [json.load(open(replay))["replay"]["scenario"]] if replay else gen(tier, rng)
+    if not replay:
+        # foreign streams whose dynamic header is the library's OWN default header with one pair of neighbouring code lengths exchanged (the
+        # decoder has a shortcut for "the default header"): the header is taken from a level-0 stream the library makes, the variants and
+        # the data that uses the exchanged symbols are produced by lib/defgen.py, the TLA+ decoder decides what they decode to
+        pr = [igz.scenario(0, "deflate_stateless", igz.corpus(rng, "text", 3000), level=0, wrap=0, calls=[[3000, 8000, 0, 1]], meta={"family": "probe"})]
+        precs, psumm, pby = igz.merge(pr, igz.run_harness(pr, wd, "c02probe"))
+        own = bytes(b for c in pby[0]["calls"] for b in c["out"])
+        k3 = 0
+        for name, st in defgen.near_header_streams(rng, own):
+            plain = inflfam.py_inflate(st) if True else b""
+            for mode in (0, 1, 3):
+                wst = inflfam.wrap_stream(mode, st, plain)
+                for api, calls_, ta, to in (("inflate_stateless", [[len(wst), 1 << 17, 0, 0]], len(wst), 1 << 17), ("inflate", [], len(wst), 4096), ("inflate", [], 97, 1 << 16)):
+                    for cpu in inflfam.KERNEL_CPUS:
+                        scns.append(igz.scenario(len(scns), api, list(wst), wrap=mode, calls=calls_, tail_ai=ta, tail_ao=to, cap=100000, mem=k3 % 3, meta={"plan": "near-default-header:" + name, "cpu": cpu})); k3 += 1
     res, by, calls, tw = inflfam.run_and_judge(v, scns, wd, "c02")
     # the documented build-time window configurations: streams produced by a build must decode in that build (and be valid streams at all)
     variants = {}
